@@ -51,6 +51,9 @@ func c02Gen(r *rand.Rand, tier string, idx int) any {
 	if r.Intn(25) == 0 {
 		n = 200 + r.Intn(600)
 	}
+	if r.Intn(40) == 0 {
+		n = 400 + r.Intn(700) // with multi-byte classes: 1-3 KiB
+	}
 	asciiOnly := r.Intn(3) == 0
 	if asciiOnly {
 		c.Text = genText(r, []string{"ascii"}, n)
@@ -73,6 +76,14 @@ func c02Gen(r *rand.Rand, tier string, idx int) any {
 	c.Delivery = pick(r, []string{"whole", "rune", "byte", "random"})
 	if len(c.Text) > 250 && c.Delivery != "whole" {
 		c.Delivery = "random"
+	}
+	if len(c.Text) > 1100 && c.Delivery == "random" {
+		c.Delivery = "whole" // (thousands of reads with a redisplay each: too slow for what it adds)
+	}
+	if len(c.Text) > 1100 && len(c.Text) < 3500 && r.Intn(2) == 0 {
+		// a paste longer than the library's 1024-byte read buffer, in one write: the reads cut
+		// it wherever the buffer ends, and the cursor query of the next redisplay reads the rest
+		c.Delivery = "paste"
 	}
 	if c.Delivery == "random" {
 		for i := 1; i < len(c.Text); i++ {
@@ -114,6 +125,8 @@ func chunk(text, delivery string, cuts []int) []string {
 			}
 		}
 		add(text[prev:])
+	case "paste":
+		out = append(out, text)
 	default:
 		add(text)
 	}
